@@ -222,3 +222,129 @@ _base_scn_f = scenarios
 
 def scenarios():
     return _base_scn_f() + [fingerprints_report()]
+
+
+# ---------------------------------------------------------------------------------------------------------------------
+# the index writers. Alias layers are abstract maps WITH updates: map i is (HAS_i, VAL_i) overridden by the writes a state has made to it.
+def _amaps(r, n):
+    HAS = z3.Function('HAS', z3.IntSort(), B, z3.BoolSort())
+    VAL = z3.Function('VAL', z3.IntSort(), B, z3.IntSort())
+    layers = [E.VObj(MAP, i) for i in range(n)]
+
+    def ups(st, o):
+        return st.heap.get(('amap', o.ref), ())
+
+    def has(st, o, k):
+        res = HAS(z3.IntVal(o.ref), k)
+        for kk, pres, _ in ups(st, o):
+            res = z3.If(k == kk, pres, res)
+        return res
+
+    def val(st, o, k):
+        res = VAL(z3.IntVal(o.ref), k)
+        for kk, _, v in ups(st, o):
+            res = z3.If(k == kk, v, res)
+        return res
+
+    def contains(ex, st, o, a):
+        return [(st, E.VBool(has(st, o, ex.strseq(a[0]))))]
+
+    def getitem(ex, st, o, a):
+        k = ex.strseq(a[0])
+        outs = []
+        for s2, t in ex.fork(st, has(st, o, k)):
+            outs.append((s2, E.VInt(val(s2, o, k)) if t else E.Raise('KeyError', 0)))
+        return outs
+
+    def setitem(ex, st, o, a):
+        st.heap[('amap', o.ref)] = ups(st, o) + ((ex.strseq(a[0]), z3.BoolVal(True), ex.as_int(a[1])),)
+        return [(st, E.VNone())]
+
+    def pop(ex, st, o, a):
+        k = ex.strseq(a[0])
+        outs = []
+        for s2, t in ex.fork(st, has(st, o, k)):
+            if t:
+                v = val(s2, o, k)
+                s2.heap[('amap', o.ref)] = ups(s2, o) + ((k, z3.BoolVal(False), z3.IntVal(0)),)
+                outs.append((s2, E.VInt(v)))
+            else:
+                outs.append((s2, a[1] if len(a) > 1 else E.Raise('KeyError', 0)))
+        return outs
+    r.hook(MAP, '__contains__', scn.method_hook(contains))
+    r.hook(MAP, '__getitem__', scn.method_hook(getitem))
+    r.hook(MAP, '__setitem__', scn.method_hook(setitem))
+    r.hook(MAP, 'pop', scn.method_hook(pop))
+    return has, val, layers
+
+
+def add_alias(n):
+    """PGPKeyring._add_alias(alias, id) over n abstract alias layers (left = consulted first): afterwards the alias leads to the id in some
+    layer; every link that existed before still exists (the frame: an arbitrary other identifier K in an arbitrary layer is untouched,
+    and the ids the alias already led to are kept); a link that existed already changes nothing; the alias is re-sorted exactly when it
+    already led to other ids. `_sort_alias` is a callee with its own contract (it permutes the ids of ONE alias among the layers)."""
+    label = 'C19/PGPKeyring._add_alias[%d layers]' % n
+
+    def gen(repo):
+        r = scn.Run(repo, RING, '_add_alias', label)
+        ex, st = r.ex, r.st
+        has, val, layers = _amaps(r, n)
+        ring = E.VObj(RING, 'ring')
+        r.set('ring', '_aliases', ex.new_list(st, layers))
+        A, K, ID = z3.Const('ALIAS', B), z3.Const('ANY_OTHER_IDENTIFIER', B), z3.Int('key_object_id')
+        NOSP = z3.Function("STR_REPLACE[' '->'']", B, B)
+        st.pc.append(K != A)
+        pre = [(has(st, m, A), val(st, m, A), has(st, m, K), val(st, m, K)) for m in layers]
+
+        def ring_contains(ex, st, o, a):
+            k = ex.strseq(a[0])
+            lst = ex.items(st.heap[('ring', '_aliases')], st)
+            terms = []
+            for m in lst:
+                if isinstance(m, E.VObj) and m.cls == MAP:
+                    terms += [has(st, m, k), has(st, m, NOSP(k))]
+                elif isinstance(m, E.VDict):
+                    terms += [ex.eq(a[0], kk, st) for kk, _ in m.of(st)]
+            return [(st, E.VBool(z3.Or(*terms) if terms else z3.BoolVal(False)))]
+        r.hook(RING, '__contains__', scn.method_hook(ring_contains))
+
+        def sort_alias(ex, st, o, a):
+            st.ghost['sorted'] = st.ghost.get('sorted', ()) + (a[0],)
+            return [(st, E.VNone())]
+        r.hook(RING, '_sort_alias', scn.method_hook(sort_alias))
+        existed = z3.Or(*[p[0] for p in pre]) if pre else z3.BoolVal(False)
+        linked = z3.Or(*[z3.And(p[0], p[1] == ID) for p in pre]) if pre else z3.BoolVal(False)
+        for pi, (s, v) in enumerate(r.call(ring, [E.VStr(z=A), E.VInt(ID)])):
+            if isinstance(v, E.Raise):
+                r.oblige(s, 'safety(%s)/p%d' % (v.exc.split(':')[0], pi), z3.BoolVal(False), v.where)
+                continue
+            now = ex.items(s.heap[('ring', '_aliases')], s)
+            leads = []
+            for m in now:
+                if isinstance(m, E.VObj) and m.cls == MAP:
+                    leads.append(z3.And(has(s, m, A), val(s, m, A) == ID))
+                elif isinstance(m, E.VDict):
+                    leads += [z3.And(ex.eq(E.VStr(z=A), kk, s), ex.as_int(vv) == ID) for kk, vv in m.of(s)]
+            r.oblige(s, 'afterwards-the-alias-leads-to-the-id-in-some-layer/p%d' % pi, z3.Or(*leads) if leads else z3.BoolVal(False))
+            for i, m in enumerate(layers):
+                r.oblige(s, 'layer-%d:any-other-identifier-is-untouched/p%d' % (i, pi),
+                         z3.And(has(s, m, K) == pre[i][2], z3.Implies(pre[i][2], val(s, m, K) == pre[i][3])))
+                r.oblige(s, 'layer-%d:an-id-the-alias-led-to-is-kept/p%d' % (i, pi), z3.Implies(pre[i][0], z3.And(has(s, m, A), val(s, m, A) == pre[i][1])))
+            r.oblige(s, 'the-original-layers-are-still-there,in-order/p%d' % pi,
+                     z3.BoolVal([x for x in now if isinstance(x, E.VObj) and x.cls == MAP] == layers))
+            changed = any(s.heap.get(('amap', m.ref)) for m in layers) or len(now) != len(layers)
+            r.oblige(s, 'a-link-that-existed-already-changes-nothing/p%d' % pi, z3.Implies(linked, z3.BoolVal(not changed)))
+            srt = s.ghost.get('sorted', ())
+            r.oblige(s, 're-sorted-when-the-alias-already-led-to-other-ids-only/p%d' % pi,
+                     z3.Implies(z3.And(existed, z3.Not(linked)), z3.BoolVal(len(srt) == 1 and isinstance(srt[0], E.VStr))))
+            r.oblige(s, 'not-re-sorted-for-a-new-alias-or-an-existing-link/p%d' % pi,
+                     z3.Implies(z3.Or(linked, z3.Not(z3.Or(existed, *[has(st, m, NOSP(A)) for m in layers]))), z3.BoolVal(len(srt) == 0)))
+        return r.result()
+    return Scenario(label, RING + '._add_alias', gen, props=('C19',))
+
+
+_base_scn_aa = scenarios
+
+
+def scenarios():
+    return _base_scn_aa() + [add_alias(n) for n in (1, 2)]
